@@ -6,19 +6,24 @@ Tie: correspondence between the model's executable definitions (Frame/SliceRun.v
 and dasp_slice's public API for N = 1..=32 x L = 0..3N+1 x {u8,i16,f32,I24,u64}: Some/None, lengths,
 contents, pointer identity as same/different, stores through mutable views seen in the original,
 live-heap-byte deltas around boxed conversions (counting GlobalAlloc), and every length pair <= 6
-of the two-slice operations with the destination before/after a caught panic."""
-import json, os
+of the two-slice operations with the destination before/after a caught panic.
+`W` cases: every in-place operation over ALL FOURTEEN sample formats x {bare sample, [S;2], [S;3]} with the C03 model
+of the frame operations (Sample/SampleOps.v, Frame/FrameOps.v) as the element-wise reference (Frame/SliceRunW.v over
+the fallible loops of Frame/SliceFallible.v): every special-cased gain (0, -0, 1, -1, 0.5, 2, 1 +- ulp) on all
+channels and mixed per channel x boundary-structured and off-float-grid samples, in the dev build (Checked model),
+the release build (Wrapping model) and relchk.  `I` cases: the identity impls and the free-function boxed forms."""
+import json, os, struct, time
 import framework as F
 import floatbase
 
 PROP = "C10"
 META = dict(
     technique="Coq proof over a memory/reference/ownership-ledger model of dasp_slice + coqc-evaluated model vs crate correspondence (pointer identity, live heap bytes, panics observed)",
-    text="Machine-checked (Coq 8.16.1) theorems about a model of dasp_slice written after the source (references = data pointer + length over a flat allocation, raw-parts reinterpretation = UB when out of extent, Box hand-over = forget/from_raw/drop on an ownership ledger, zip_map loop with unchecked accesses): for every N >= 1 and every length, the frame view exists iff N | L, has L/N frames, frame i channel c is cell i*N+c of the same allocation, both round trips are the identity, a store through a view is the store at the flat index, boxed conversion reuses the one block (same address, same bytes) and a failed one frees it, zip_map_in_place = map2 and a length mismatch is an assert panic with the destination untouched, derived ops are the element-wise frame op for every frame operation. Tied to the crate by running the same cases through the 32 macro-generated impls x 5 sample formats and comparing Some/None, lengths, contents, pointer identity, live heap bytes and panic/destination snapshots exactly.",
-    note="Trusted: Coq kernel; the hand-written model (slices as address+length over a list, usize as nat, the ledger as the meaning of forget/from_raw/drop) validated only through the correspondence (pointer identity and freeing are observed, not proved about rustc); harness + python generators; Base/Float.v for the f32 add/mul of the per-channel-gain cases (validated against rustc by lib/floatbase.py). Axioms: none.",
+    text="Machine-checked (Coq 8.16.1) theorems about a model of dasp_slice written after the source (references = data pointer + length over a flat allocation, raw-parts reinterpretation = UB when out of extent, Box hand-over = forget/from_raw/drop on an ownership ledger, zip_map loop with unchecked accesses): for every N >= 1 and every length, the frame view exists iff N | L, has L/N frames, frame i channel c is cell i*N+c of the same allocation, both round trips are the identity, a store through a view is the store at the flat index, boxed conversion reuses the one block (same address, same bytes) and a failed one frees it, zip_map_in_place = map2 and a length mismatch is an assert panic with the destination untouched, derived ops are the element-wise frame op for every frame operation. Tied to the crate by running the same cases through the 32 macro-generated impls x 5 sample formats and comparing Some/None, lengths, contents, pointer identity, live heap bytes and panic/destination snapshots exactly. The in-place operations are also proved for a frame operation that can panic (overflow-checked add_amp): the walk stores results front to back, the first panic leaves its frame and all later ones untouched, a total operation gives back the pure model; these run over all 14 sample formats x 3 frame shapes with the C03 model of add_amp/mul_amp/scale_amp/offset_amp as the element-wise reference, for every special-cased gain (0, -0, 1, -1, 0.5, 2, 1 +- ulp; all channels equal and mixed) x boundary-structured and off-float-grid samples, in dev (Checked), release (Wrapping) and relchk builds.",
+    note="Trusted: Coq kernel; the hand-written model (slices as address+length over a list, usize as nat, the ledger as the meaning of forget/from_raw/drop) validated only through the correspondence (pointer identity and freeing are observed, not proved about rustc); harness + python generators; Base/Float.v for the f32 add/mul of the per-channel-gain cases (validated against rustc by lib/floatbase.py); for the W cases the C03 model of the sample operations (generated conversions of C01/C02, companion table, I24/I48 operator model of C15) is the reference for the element-wise frame operation - C10 checks that the slice operations ARE that element-wise operation, C03 checks the operation itself. Axioms: none.",
     design="6/C10")
-HEADER = "From Dasp Require Import Frame.SliceRun."
-CHECK = "check"
+HEADER = "From Dasp Require Import Frame.SliceRun Frame.SliceRunW."
+CHECK = "checkx"
 
 FMT_NAMES = ["u8", "i16", "f32", "I24", "u64"]
 FMT_SIZE = [1, 2, 4, 4, 8]
@@ -50,6 +55,237 @@ def f32_amp(r):
                      (r.below(2) << 31) | (r.range(100, 150) << 23) | r.below(1 << 23)])
 
 
+# ---------------------------------------------------------------------------
+# `W` cases: the in-place operations over EVERY sample format (codes of Sample/SampleFmt.v = C03's), frames = the
+# bare sample / [S; 2] / [S; 3], with the special-cased gains x boundary-structured and off-float-grid values
+W_NAMES = ["i8", "i16", "I24", "i32", "I48", "i64", "u8", "u16", "U24", "u32", "U48", "u64", "f32", "f64"]
+W_BITS = [8, 16, 24, 32, 48, 64, 8, 16, 24, 32, 48, 64, 32, 64]
+W_SIGNED = [0, 1, 2, 3, 4, 5, 0, 1, 3, 3, 5, 5, 12, 13]      # code of the Signed companion (impl_sample! table)
+W_SHAPES = [0, 2, 3]                                          # 0 = the bare sample type is the frame
+W_WIDE = (3, 5, 9, 11)                                        # more value bits than the Float companion's mantissa
+W_RELCHK_AS_RELEASE = (2, 4)                                  # `+` of I24/I48 is gated on cfg!(debug_assertions)
+
+
+def w_range(c):
+    b = W_BITS[c]
+    return (-(1 << (b - 1)), (1 << (b - 1)) - 1) if c < 6 else (0, (1 << b) - 1)
+
+
+def w_half(c):
+    return 0 if c < 6 else 1 << (W_BITS[c] - 1)
+
+
+def w_fw(c):
+    """width of the Float companion of the Signed companion of format c"""
+    return 64 if W_SIGNED[c] in (4, 5, 13) else 32
+
+
+def fbits(w, x):
+    return struct.unpack("<I", struct.pack("<f", x))[0] if w == 32 else struct.unpack("<Q", struct.pack("<d", x))[0]
+
+
+def w_mant(w):
+    return 24 if w == 32 else 53
+
+
+def w_int_val(r, c):
+    """boundary-structured value of integer format c: range ends, equilibrium +-1, equilibrium +- 2^k +- 1,
+    values OFF the grid of the float companion (a high bit plus low bits), small, uniform"""
+    lo, hi = w_range(c)
+    h, b = w_half(c), W_BITS[c]
+    k = r.below(12)
+    if k < 2:
+        v = r.choice([lo, lo + 1, hi - 1, hi, h, h - 1, h + 1])
+    elif k < 4:
+        v = h + r.choice([1, -1]) * (1 << r.below(b)) + r.choice([-1, 0, 1])
+    elif k < 7:
+        e = r.range(min(b - 2, 20), b - 2)
+        v = h + r.choice([1, -1]) * ((1 << e) + 2 * r.below(1 << min(e, 12)) + 1)
+    elif k < 9:
+        v = h + r.range(-9, 9)
+    else:
+        v = r.range(lo, hi)
+    return min(hi, max(lo, v))
+
+
+W_FSPECIAL = [0.0, -0.0, 1.0, -1.0, 0.5, -0.5, 0.25, 2.0, -2.0, 0.999, 1e-3, -1e-3, 3.0, 0.75]
+
+
+def w_float_val(r, w, wild=True):
+    """bit pattern of an f32/f64: mostly [-1, 1), specials, a few arbitrary patterns (inf, NaN, subnormal)"""
+    k = r.below(20)
+    mw, bias = (23, 127) if w == 32 else (52, 1023)
+    if k < 5:
+        return fbits(w, r.choice(W_FSPECIAL))
+    if k < 7:
+        return (fbits(w, 1.0) - 1) | (r.below(2) << (w - 1))          # +-(1 - ulp)
+    if k < 16 or not wild:
+        e = bias - 1 - r.below(r.choice([3, 12, 30]))
+        return (r.below(2) << (w - 1)) | (e << mw) | r.below(1 << mw)
+    if k < 18:
+        return (r.below(2) << (w - 1)) | ((bias + r.range(-3, 3)) << mw) | r.below(1 << mw)
+    if k == 18:
+        return r.choice([0x7F800000, 0xFF800000, 0x7FC00000, 1, 0x00800000] if w == 32 else
+                        [0x7FF0000000000000, 0xFFF0000000000000, 0x7FF8000000000000, 1, 0x0010000000000000])
+    return r.below(1 << w)
+
+
+def w_val(r, c):
+    return w_float_val(r, W_BITS[c]) if c >= 12 else w_int_val(r, c)
+
+
+def w_a_val(r, c):
+    """destination samples: half of them near the equilibrium (the sum is then b x gain itself and seldom overflows)"""
+    if c >= 12:
+        return w_float_val(r, W_BITS[c])
+    lo, hi = w_range(c)
+    k = r.below(4)
+    if k < 2:
+        return min(hi, max(lo, w_half(c) + r.range(-9, 9)))
+    return w_int_val(r, c) if k == 2 else r.range(lo, hi)
+
+
+def w_frames(r, c, nch, n, gen):
+    return [[gen(r, c) for _ in range(nch)] for _ in range(n)]
+
+
+def w_gain_patterns(r, c, nch):
+    """(name, amp frame): every special-cased gain on ALL channels, special gains mixed per channel, random"""
+    w = w_fw(c)
+    one = fbits(w, 1.0)
+    sp = [("all_1", 1.0), ("all_0", 0.0), ("all_-1", -1.0), ("all_0.5", 0.5), ("all_-0", -0.0), ("all_2", 2.0)]
+    pats = [(nm, [fbits(w, g)] * nch) for nm, g in sp]
+    pats.append(("all_1-ulp", [one - 1] * nch))
+    pats.append(("all_1+ulp", [one + 1] * nch))
+    if nch >= 2:
+        for nm, others in (("mixed_1_0.5", [0.5]), ("mixed_1_0", [0.0]), ("mixed_1_-1", [-1.0])):
+            amp = [one] * nch
+            amp[r.below(nch)] = fbits(w, others[0])
+            pats.append((nm, amp))
+        amp = [one] * nch
+        amp[r.below(nch)] = one - 1
+        pats.append(("mixed_1_1-ulp", amp))
+        pats.append(("mixed_specials", [fbits(w, r.choice([0.0, 1.0, -1.0, 0.5, 2.0, 0.25])) for _ in range(nch)]))
+    else:
+        pats.append(("one_0.25", [fbits(w, 0.25)]))
+    pats.append(("random", [w_float_val(r, w, wild=False) for _ in range(nch)]))
+    pats.append(("random_wild", [w_float_val(r, w) for _ in range(nch)]))
+    return pats
+
+
+def w_hot_values(c):
+    """source samples a special-cased gain is most likely to get wrong: the range ends (negation, doubling,
+    saturation), +-1 and +-3 (halving of odd values), values with more significant bits than the float companion
+    holds (c is the code of the Signed format the values belong to)"""
+    if c >= 12:
+        w = W_BITS[c]
+        inf = 0x7F800000 if w == 32 else 0x7FF0000000000000
+        nan = 0x7FC00000 if w == 32 else 0x7FF8000000000000
+        return [fbits(w, x) for x in (1.0, -1.0, 0.5, -0.75, 1e-3)] + [fbits(w, 1.0) - 1, (fbits(w, 1.0) + 1) | (1 << (w - 1)),
+                                                                       inf, inf | (1 << (w - 1)), nan, 1]
+    lo, hi = w_range(c)
+    b = W_BITS[c]
+    e = min(b - 2, w_mant(64 if c in (4, 5) else 32))
+    return [lo, hi, lo + 1, hi - 1, -1, 1, -3, 3, (1 << e) + 1, -(1 << e) - 1, (1 << (b - 2)) + 3, -(1 << (b - 2)) - 5]
+
+
+def w_hot_pair(c, nch, j):
+    """first frame pair of a gain case: destination AT the equilibrium (the sum is then the scaled source itself and
+    cannot overflow, whatever the gain), source = hot values rotating with the case counter j"""
+    sg = W_SIGNED[c]
+    hot = w_hot_values(sg)
+    eq = 0 if c >= 12 else w_half(c)
+    return [eq] * nch, [hot[(j + ch) % len(hot)] for ch in range(nch)]
+
+
+def w_item(mode, op, c, shape, a, b, amp, k, family):
+    return build(dict(kind="W", mode=mode, op=op, fmt=c, shape=shape, a=a, b=b, amp=amp, k=k, family=family))
+
+
+def gen_w_cases(rng, tier):
+    """mode 0 (dev) items; the release-mode twins are made from them by `with_mode`"""
+    items = []
+    hot_j = 0
+    reps = 1 if tier == "quick" else 5
+    for rep_i in range(reps):
+        for c in range(14):
+            sg = W_SIGNED[c]
+            for shape in W_SHAPES:
+                nch = max(1, shape)
+                r = rng.fork(f"w{rep_i}_{c}_{shape}")
+                # wide formats (the float companion cannot hold every sample) get every pattern twice
+                rounds = 2 if c in W_WIDE else 1
+                for rd in range(rounds):
+                    for nm, amp in w_gain_patterns(r, c, nch):
+                        n = r.range(1, 2)
+                        a, b = w_frames(r, c, nch, n, w_a_val), w_frames(r, sg, nch, n, w_val)
+                        if (hot_j + rd) % 2 == 0:
+                            a[0], b[0] = w_hot_pair(c, nch, hot_j)
+                        if c >= 12 and nm in ("all_0", "all_-0"):     # 0 x inf, 0 x NaN: a muted source is not "nothing"
+                            hv = w_hot_values(c)
+                            a[0], b[0] = [0] * nch, [hv[7 + (hot_j + ch) % 3] for ch in range(nch)]
+                        hot_j += 1
+                        items.append(w_item(0, 5, c, shape, a, b, amp, 0, "amp:" + nm))
+                    for nm, amp in w_gain_patterns(r, c, 1)[:4] + w_gain_patterns(r, c, 1)[-2:-1]:
+                        n = r.range(1, 2)
+                        a, b = w_frames(r, c, nch, n, w_a_val), w_frames(r, sg, nch, n, w_val)
+                        if (hot_j + rd) % 2 == 0:
+                            a[0], b[0] = w_hot_pair(c, nch, hot_j)
+                        hot_j += 1
+                        items.append(w_item(0, 2, c, shape, a, b, amp, 0, "zipscale:" + (nm[4:] if nm.startswith("all_") else nm)))
+                # add_in_place: b boundary-structured; b = 0; a at the range ends (overflow in the checked build)
+                n = r.range(1, 3)
+                items.append(w_item(0, 4, c, shape, w_frames(r, c, nch, n, w_a_val), w_frames(r, sg, nch, n, w_val), [], 0, "add"))
+                items.append(w_item(0, 4, c, shape, w_frames(r, c, nch, n, w_val), w_frames(r, sg, nch, n, w_val), [], 0, "add_boundary"))
+                zero = 0
+                items.append(w_item(0, 4, c, shape, w_frames(r, c, nch, n, w_val), [[zero] * nch for _ in range(n)], [], 0, "add_zero"))
+                # write (both slices of FA's format), equilibrium, map_in_place with offset_amp(k)
+                n = r.range(1, 3)
+                items.append(w_item(0, 3, c, shape, w_frames(r, c, nch, n, w_val), w_frames(r, c, nch, n, w_val), [], 0, "write"))
+                items.append(w_item(0, 0, c, shape, w_frames(r, c, nch, r.range(1, 3), w_val), [], [], 0, "equilibrium"))
+                for kk in ([0, 1, -1, w_int_val(r, sg)] if c < 12 else [0, fbits(W_BITS[c], 1.0), w_float_val(r, W_BITS[c])]):
+                    items.append(w_item(0, 1, c, shape, w_frames(r, c, nch, r.range(1, 3), w_a_val), [], [], kk, "map_offset"))
+                # length mismatch through the generic instances (the assert is before the loop for every format)
+                # (with a special-cased gain: an early-out for a gain must not come before the assert)
+                for op in (5, r.choice([2, 3, 4])):
+                    la = r.range(0, 3)
+                    lb = la + r.choice([1, 2]) if r.chance(1, 2) or la == 0 else la - 1
+                    nm, amp = r.choice(w_gain_patterns(r, c, nch)[:6])
+                    items.append(w_item(0, op, c, shape, w_frames(r, c, nch, la, w_a_val),
+                                        w_frames(r, c if op == 3 else sg, nch, lb, w_val), amp, 0, "mismatch:" + nm))
+    # longer slices (a shortcut may sit behind a length threshold): the wide formats and f32, stereo, unity / mixed gains
+    for rep_i in range(reps):
+        for c in W_WIDE + (12,):
+            sg, w = W_SIGNED[c], w_fw(c)
+            for n in (9, 33) if tier == "quick" else (9, 33, 64, 130):
+                r = rng.fork(f"wl{rep_i}_{c}_{n}")
+                near = lambda r_, c_: w_float_val(r_, W_BITS[c_]) if c_ >= 12 else w_half(c_) + r_.range(-9, 9)
+                for nm, amp in (("all_1", [fbits(w, 1.0)] * 2), ("mixed_1_0.5", [fbits(w, 1.0), fbits(w, 0.5)])):
+                    items.append(w_item(0, 5, c, 2, w_frames(r, c, 2, n, near), w_frames(r, sg, 2, n, w_val), amp, 0, f"long{n}:" + nm))
+    return items
+
+
+def with_mode(it, mode):
+    return build(dict(case_fields(it), mode=mode, family=it.get("family", "")))
+
+
+def w_offgrid_unity(it):
+    """the feature the round-3 seed needed: unity gain on EVERY channel, a wide format, a source sample that the float
+    companion cannot represent"""
+    if it["kind"] != "W" or it["op"] not in (2, 5) or it["fmt"] not in W_WIDE or len(it["a"]) != len(it["b"]):
+        return False
+    w = w_fw(it["fmt"])
+    amp = it["amp"] if it["op"] == 5 else it["amp"][:1]
+    if any(g != fbits(w, 1.0) for g in amp):
+        return False
+    m = w_mant(w)
+
+    def off(v):
+        v = abs(v)
+        return v != 0 and v.bit_length() - (v & -v).bit_length() + 1 > m
+    return any(off(v) for f in it["b"] for v in f)
+
+
 def build(item):
     it = dict(item)
     k = it["kind"]
@@ -61,11 +297,22 @@ def build(item):
     elif k == "B":
         it["line"] = f"B {it['fmt']} {it['N']} ; {J(it['data'])}"
         it["coq"] = f"CBoxed {F.zlit(it['N'])} {F.zlit(FMT_SIZE[it['fmt']])} {F.zlist(it['data'])}"
+    elif k == "I":
+        it["line"] = f"I {it['fmt']} ; {J(it['data'])}"
+        it["coq"] = f"XI {F.zlit(FMT_SIZE[it['fmt']])} {F.zlist(it['data'])}"
+        return it
+    elif k == "W":
+        fl = lambda fs: [x for f in fs for x in f]
+        it["line"] = f"W {it['op']} {it['fmt']} {it['shape']} ; {J(fl(it['a']))} ; {J(fl(it['b']))} ; {J(it['amp'])} ; {it['k']}"
+        it["coq"] = (f"XW {F.zlit(it['mode'])} {F.zlit(it['op'])} {F.zlit(it['fmt'])} {F.zlit(it['shape'])} "
+                     f"{F.zlistlist(it['a'])} {F.zlistlist(it['b'])} {F.zlist(it['amp'])} {F.zlit(it['k'])}")
+        return it
     else:
         fl = lambda fs: [x for f in fs for x in f]
         it["line"] = f"Z {it['op']} {it['fmt']} {it['k']} ; {J(fl(it['a']))} ; {J(fl(it['b']))} ; {J(it['amp'])}"
         it["coq"] = (f"COp {F.zlit(it['op'])} {F.zlit(it['fmt'])} {F.zlistlist(it['a'])} {F.zlistlist(it['b'])} "
                      f"{F.zlist(it['amp'])} {F.zlit(it['k'])}")
+    it["coq"] = "XZ (" + it["coq"] + ")"
     return it
 
 
@@ -126,6 +373,12 @@ def gen_cases(rng, tier):
             items.append(view_case(r, fmt, N, L))
         else:
             items.append(build(dict(kind="B", fmt=fmt, N=N, data=[sample_value(r, fmt) for _ in range(L)])))
+    # the identity impls (samples as samples, frames as frames; shared, mutable, boxed) and the free-function forms
+    # to_boxed_frame_slice / to_boxed_sample_slice: every format x L = 0..7 (and a few longer)
+    for fmt in fmts_all:
+        for L in list(range(0, 8)) + ([33, 64] if tier == "quick" else [33, 64, 127, 256]):
+            r = rng.fork(f"i{fmt}_{L}")
+            items.append(build(dict(kind="I", fmt=fmt, data=[sample_value(r, fmt) for _ in range(L)])))
     n_grid = len(items)
     # 2. in-place operations: every pair of lengths 0..6 for the two-slice operations
     reps = 1 if tier == "quick" else 6
@@ -153,7 +406,8 @@ def gen_cases(rng, tier):
 
 def nontrivial(it, obs_line):
     """a state-dependent branch is exercised: the divisibility test fails with N >= 2 (V, B), a store
-    through a mutable view completed (V: an observation `7`), or the two slices differ in length (Z)."""
+    through a mutable view completed (V: an observation `7`), or the two slices differ in length (Z), or (W) the
+    operation changed the destination / panicked."""
     if it["kind"] in ("V", "B"):
         N, L = it["N"], len(it["data"])
         if N >= 2 and L % N != 0:
@@ -161,6 +415,11 @@ def nontrivial(it, obs_line):
         if it["kind"] == "V":
             return "7" in obs_line.split(";")
         return False
+    if it["kind"] == "I":
+        return len(it["data"]) % 2 == 1       # the N = 2 free-function boxed conversion fails and frees
+    if it["kind"] == "W":   # the frame operation changed the destination, or it panicked, or the assert fired
+        parts = obs_line.split(";")
+        return len(parts) == 3 and (parts[1].startswith("8") or parts[0] != parts[2])
     return (it["op"], it["fmt"]) in TWO_SLICE and len(it["a"]) != len(it["b"])
 
 
@@ -170,12 +429,15 @@ def load_corpus():
     if os.path.isdir(d):
         for fn in sorted(os.listdir(d)):
             if fn.endswith(".json"):
-                items.append(build(json.load(open(os.path.join(d, fn)))))
+                c = json.load(open(os.path.join(d, fn)))
+                if c.get("kind") == "W":
+                    c["mode"] = 0        # every W case is run in both modes (dev: 0, release: its mode-1 twin)
+                items.append(build(c))
     return items
 
 
 def case_fields(it):
-    return {k: it[k] for k in ("kind", "fmt", "N", "data", "w1", "w2", "s1", "s2", "op", "k", "a", "b", "amp") if k in it}
+    return {k: it[k] for k in ("kind", "fmt", "N", "data", "w1", "w2", "s1", "s2", "op", "k", "a", "b", "amp", "mode", "shape") if k in it}
 
 
 def shrink(it, fails):
@@ -194,6 +456,26 @@ def shrink(it, fails):
                     c.update(w1=[min(it["w1"][0], K2), it["w1"][1], 99], w2=[min(it["w2"][0], K2), it["w2"][1], 98],
                              s1=[min(it["s1"][0], K2 * N), 97], s2=[min(it["s2"][0], K2 * N), 96])
                 cands.append(c)
+    elif it["kind"] == "I":
+        for L2 in (0, 1, 2, 3):
+            if L2 < len(it["data"]):
+                c = build(dict(case_fields(it), data=[(i + 1) % 100 for i in range(L2)]))
+                if fails(c):
+                    return c
+        return cur
+    elif it["kind"] == "W":
+        # one frame pair at a time (the operations are element-wise), then one channel at a time made neutral
+        if len(it["a"]) == len(it["b"]) and len(it["a"]) > 1:
+            for i in range(len(it["a"])):
+                cands.append(dict(case_fields(it), a=[it["a"][i]], b=[it["b"][i]]))
+        elif not it["b"] and len(it["a"]) > 1:
+            for i in range(len(it["a"])):
+                cands.append(dict(case_fields(it), a=[it["a"][i]]))
+        for c in cands:
+            b = build(c)
+            if fails(b):
+                return b
+        return cur
     else:
         if it["fmt"] in (0, 2):
             cands.append(dict(case_fields(it), a=[[i + 1, -(i + 1)] for i in range(len(it["a"]))],
@@ -205,16 +487,20 @@ def shrink(it, fails):
     return cur
 
 
-def correspond(binpath, items, tag):
+def correspond(binpath, items, tag, extra=()):
     """F.correspond with two differences that only concern resources: the cases are dealt to the coqc
     shards in a strided order (so that the few long slices do not end up in one multi-megabyte file) and
     in smaller files; a shard whose coqc process died (out of memory on a loaded machine) is retried once
-    in small pieces.  Verdicts are per case and identical to F.correspond's."""
+    in small pieces.  Verdicts are per case and identical to F.correspond's.
+    extra = [(item, observation line)] already run elsewhere (the release-build twins of W cases): they join the
+    same coqc batch; their indices in the returned list continue after those of `items`."""
     rc, outl, err = F.run_bin_parallel(binpath, [it["line"] for it in items])
     if rc != 0 or len(outl) != len(items):
         return outl, [], [("harness", f"rc={rc} lines={len(outl)}/{len(items)} stderr={err[-1500:]}")]
+    if callable(extra):
+        extra = extra(outl)
     terms = []
-    for it, o in zip(items, outl):
+    for it, o in list(zip(items, outl)) + list(extra):
         try:
             terms.append(f"({it['coq']}, {F.zlistlist(F.norm_obs_line(o))})")
         except ValueError:
@@ -243,7 +529,16 @@ def correspond(binpath, items, tag):
 
 def main(rep, tier, seed):
     rng = F.Rng(seed)
+    t0 = time.time()
+    times = {}
+
+    def lap(name):
+        nonlocal t0
+        times[name] = round(time.time() - t0, 1)
+        t0 = time.time()
+
     info = F.standard_proof_phase(rep, PROP)
+    lap("proof_phase")
     ok, blog, binpath = F.harness_build("c10")
     if not ok:
         rep.violation("harness_build", {"kind": "harness does not build against /repo", "log": blog[-4000:]}, no_input=True)
@@ -254,27 +549,120 @@ def main(rep, tier, seed):
     if fb_bad:
         rep.violation("floatbase", {"kind": "Base/Float.v disagrees with rustc on an IEEE operation (model base, not dasp)",
                                     "cases": fb_bad[:5]}, no_input=True)
+    lap("harness_build_and_floatbase")
     corpus = load_corpus()
     items, n_grid = gen_cases(rng, tier)
-    items = corpus + items
-    outl, bad, errors = correspond(binpath, items, "c10")
-    # the same cases in the release and overflow-checked-release profiles: C10's observations (incl. the
+    w_items = gen_w_cases(rng.fork("wide"), tier)
+    items = corpus + items + w_items
+    w_idx = [i for i, it in enumerate(items) if it["kind"] == "W"]
+    o_idx = [i for i, it in enumerate(items) if it["kind"] != "W"]
+    # The W cases depend on the build profile only through overflow: an overflowing `+` panics with overflow checks
+    # and wraps without.  dev build: compared with the model in Checked mode.  release build: a case that did not
+    # panic in the dev build must give the dev observation (no overflow = nothing for the profile to change; a
+    # difference is reported), a case that did is compared with the model in Wrapping mode (its mode-1 twin joins
+    # the same coqc batch).  relchk (optimised, overflow checks on, debug assertions off) must behave as dev, except
+    # I24/I48 whose operators are gated on cfg!(debug_assertions): after a dev panic, as release.
+    rel_items, rel_src, outl_rel, outl_chk = [], [], [], []
+    wstats = {"release_cases": 0, "release_cases_vs_wrapping_model": 0, "release_differences": 0, "relchk_cases": 0, "relchk_differences": 0}
+    bin_rel = bin_chk = None
+    if w_idx:
+        okr, logr, bin_rel = F.harness_build("c10", profile="release")
+        okc, logc, bin_chk = F.harness_build("c10", profile="relchk")
+        if not okr or not okc:
+            rep.violation("profile_harness_build", {"kind": "harness could not be built in the release / relchk profile",
+                                                    "log": (logr if not okr else logc)[-3000:]}, no_input=True)
+            bin_rel = bin_chk = None
+
+    def dev_panicked(o):
+        return o.split(";")[1:2] != ["7"]
+
+    def release_twins(outl_dev):
+        if not bin_rel:
+            return []
+        rc, o_rel, err = F.run_bin_parallel(bin_rel, [items[i]["line"] for i in w_idx])
+        if rc != 0 or len(o_rel) != len(w_idx):
+            rep.violation("profile_release_run", {"kind": "release harness run incomplete", "log": err[-1500:]}, no_input=True)
+            return []
+        outl_rel.extend(o_rel)
+        for j, i in enumerate(w_idx):
+            if dev_panicked(outl_dev[i]):
+                rel_items.append(with_mode(items[i], 1))
+                rel_src.append(j)
+        return [(it, o_rel[j]) for it, j in zip(rel_items, rel_src)]
+
+    lap("generation_and_profile_builds")
+    outl, bad_all, errors = correspond(binpath, items, "c10", extra=release_twins)
+    lap("dev_and_release_runs_and_coqc_batch")
+    bad = [i for i in bad_all if i < len(items)]
+    bad_rel = [i - len(items) for i in bad_all if i >= len(items)]
+    wstats["release_cases"] = len(outl_rel)
+    wstats["release_cases_vs_wrapping_model"] = len(rel_items)
+    # the V/B/I/Z cases in the release and overflow-checked-release profiles: their observations (incl. the
     # length-mismatch panics, which are plain assert!s) must not depend on the build profile
-    pdiffs, perrs = F.profile_diff("c10", items, outl, profiles=("release", "relchk")) if not errors else ([], [])
+    pdiffs, perrs = ([], [])
+    if not errors:
+        pd, perrs = F.profile_diff("c10", [items[i] for i in o_idx], [outl[i] for i in o_idx], profiles=("release", "relchk"))
+        pdiffs = [(o_idx[j], prof, line) for j, prof, line in pd]
     for name, msg in perrs:
         rep.violation("profile_" + name, {"kind": "harness could not be built/run in another profile", "log": msg}, no_input=True)
     for idx, prof, line in pdiffs[:3]:
         rep.violation(f"profile_{prof}_case{idx}", {
             "kind": f"the crate behaves differently in the {prof} build profile than in the dev profile (the proved model has no profile dependence; e.g. a length check that only exists under debug assertions)",
             "harness_line": items[idx]["line"], "dev_observations": outl[idx], f"{prof}_observations": line})
+    if not errors and outl_rel:
+        shown = 0
+        for j, i in enumerate(w_idx):
+            if not dev_panicked(outl[i]) and outl_rel[j] != outl[i]:
+                wstats["release_differences"] += 1
+                if shown < 3:
+                    shown += 1
+                    rep.violation(f"profile_release_case{i}", {
+                        "kind": "an in-place operation that completes without a panic in the dev build (where it agrees with the model) gives "
+                                "a different result in the release build",
+                        "case": case_fields(with_mode(items[i], 1)), "harness_line": items[i]["line"],
+                        "dev_observations": outl[i], "release_observations": outl_rel[j],
+                        "replay": "./check.py C10 --replay <this file>   (release build against the Wrapping model)"})
+        rc, o_chk, err = F.run_bin_parallel(bin_chk, [items[i]["line"] for i in w_idx])
+        if rc != 0 or len(o_chk) != len(w_idx):
+            rep.violation("profile_relchk_run", {"kind": "relchk harness run incomplete", "log": err[-1500:]}, no_input=True)
+        else:
+            outl_chk = o_chk
+            wstats["relchk_cases"] = len(w_idx)
+            shown = 0
+            for j, i in enumerate(w_idx):
+                # I24/I48: no panic in the dev build = no profile can differ; otherwise the operators wrap as in
+                # release, unless the representation-type `+` itself overflows (possible only for out-of-range
+                # inner values, which a saturating float conversion of a huge product yields): that is rustc's
+                # overflow panic, in this profile only, and the model has no such third mode - status accepted
+                as_rel = items[i]["fmt"] in W_RELCHK_AS_RELEASE and dev_panicked(outl[i])
+                expect = outl_rel[j] if as_rel else outl[i]
+                if as_rel and outl_chk[j] != expect and outl_chk[j].split(";")[:2] == [expect.split(";")[0], "8 1"]:
+                    wstats["relchk_only_representation_overflow_panics"] = wstats.get("relchk_only_representation_overflow_panics", 0) + 1
+                    continue
+                if outl_chk[j] != expect:
+                    wstats["relchk_differences"] += 1
+                    if shown < 3:
+                        shown += 1
+                        rep.violation(f"profile_relchk_case{i}", {
+                            "kind": "in the optimised build with overflow checks (relchk) an in-place operation behaves neither as in the "
+                                    "build it must agree with (dev for the primitive formats, release for I24/I48 after a dev panic) nor as the model",
+                            "case": case_fields(items[i]), "harness_line": items[i]["line"],
+                            "expected_observations (" + ("release" if as_rel else "dev") + " build)": expect,
+                            "relchk_observations": outl_chk[j],
+                            "replay": f"echo '<harness_line>' | harness/target/relchk/c10"})
     for name, msg in errors:
         rep.violation("correspondence_error_" + name.replace("/", "_"),
                       {"kind": "correspondence could not be evaluated", "where": name, "log": msg}, no_input=True)
+    lap("profile_diffs")
     hist = {"kind": {}, "format": {}, "N": {}, "divisible": {"yes": 0, "no": 0}, "op": {}, "pair": {"equal": 0, "mismatched": 0},
-            "stores_through_views": 0, "index_panics_through_views": 0, "assert_panics": 0, "boxed_failures_freed": 0}
+            "stores_through_views": 0, "index_panics_through_views": 0, "assert_panics": 0, "boxed_failures_freed": 0,
+            "wide": {"unity_gain_all_channels_x_wide_format_x_off_grid_source": 0, "dev_overflow_panics_inside_the_frame_operation": 0}}
     for it, o in zip(items, outl if not errors else [""] * len(items)):
         hist["kind"][it["kind"]] = hist["kind"].get(it["kind"], 0) + 1
-        if it["kind"] in ("V", "B"):
+        if it["kind"] == "I":
+            hist["format"]["I:" + FMT_NAMES[it["fmt"]]] = hist["format"].get("I:" + FMT_NAMES[it["fmt"]], 0) + 1
+            hist["boxed_failures_freed"] += sum(1 for p in o.split(";") if p.startswith("0 -"))
+        elif it["kind"] in ("V", "B"):
             fk = it["kind"] + ":" + FMT_NAMES[it["fmt"]]
             hist["format"][fk] = hist["format"].get(fk, 0) + 1
             hist["N"][str(it["N"])] = hist["N"].get(str(it["N"]), 0) + 1
@@ -285,32 +673,54 @@ def main(rep, tier, seed):
                 hist["index_panics_through_views"] += parts.count("8 2")
             else:
                 hist["boxed_failures_freed"] += sum(1 for p in parts if p.startswith("0 -"))
+        elif it["kind"] == "W":
+            hw = hist["wide"]
+            for key in ("op:" + OP_NAMES[it["op"]], "format:" + W_NAMES[it["fmt"]], "shape:" + ("bare" if it["shape"] == 0 else f"[S;{it['shape']}]"),
+                        "family:" + it.get("family", "corpus")):
+                hw[key] = hw.get(key, 0) + 1
+            if w_offgrid_unity(it):
+                hw["unity_gain_all_channels_x_wide_format_x_off_grid_source"] += 1
+            st = o.split(";")[1] if o.count(";") == 2 else ""
+            if st.startswith("8 1") or st.startswith("8 4"):
+                hw["dev_overflow_panics_inside_the_frame_operation"] += 1
+            hist["assert_panics"] += int(st == "8 3")
         else:
             ok_ = OP_NAMES[it["op"]] + ":" + ZFMT_NAMES[it["fmt"]]
             hist["op"][ok_] = hist["op"].get(ok_, 0) + 1
             if (it["op"], it["fmt"]) in TWO_SLICE:
                 hist["pair"]["equal" if len(it["a"]) == len(it["b"]) else "mismatched"] += 1
             hist["assert_panics"] += o.split(";").count("8 3")
+    hist["wide"].update(wstats)
     nontriv = len({it["line"] for it, o in zip(items, outl) if nontrivial(it, o)}) if not errors else 0
-    for idx in bad[:3]:
-        it = items[idx]
+    def report(tagp, bp, its, bads, profile):
+        for idx in bads[:3]:
+            it = its[idx]
 
-        def fails(c):
-            o, b, e = F.correspond(binpath, [c], HEADER, CHECK, "c10_shrink")
-            return bool(b) and not e
+            def fails(c):
+                o, b, e = F.correspond(bp, [c], HEADER, CHECK, "c10_shrink")
+                return bool(b) and not e
 
-        small = shrink(it, fails)
-        rc, out, _ = F.run_bin(binpath, [small["line"]])
-        _, model = F.coq_eval("c10", HEADER, f"run_case ({small['coq']})")
-        rep.violation(f"case{idx}", {
-            "kind": "model/implementation disagreement: dasp_slice does not behave as the proved model of the slice views / in-place operations",
-            "case": case_fields(small), "harness_line": small["line"], "implementation_observations": out,
-            "model_observations": model[-3000:], "original_case_index": idx,
-            "replay": "./check.py C10 --replay <this file>"})
-    dist = dict(hist, grid_and_long_cases=n_grid, op_cases=len(items) - n_grid - len(corpus), corpus_cases=len(corpus),
+            small = shrink(it, fails)
+            rc, out, _ = F.run_bin(bp, [small["line"]])
+            _, model = F.coq_eval("c10", HEADER, f"run_xcase ({small['coq']})")
+            rep.violation(f"{tagp}{idx}", {
+                "kind": "model/implementation disagreement: dasp_slice does not behave as the proved model of the slice views / in-place operations",
+                "build_profile": profile,
+                "case": case_fields(small), "harness_line": small["line"], "implementation_observations": out,
+                "model_observations": model[-3000:], "original_case_index": idx,
+                "replay": "./check.py C10 --replay <this file>"})
+
+    report("case", binpath, items, bad, "dev")
+    if bad_rel:
+        report("release_case", bin_rel, rel_items, bad_rel, "release")
+    dist = dict(hist, grid_and_long_cases=n_grid, op_cases=len(items) - n_grid - len(corpus) - len(w_items), wide_format_op_cases=len(w_items),
+                corpus_cases=len(corpus), timing_s=times,
                 floatbase_cases=fb_n, floatbase_disagreements=len(fb_bad))
     samples = [items[i]["line"][:300] for i in (len(corpus) + 9, len(corpus) + n_grid // 2, len(items) - 1) if i < len(items)]
-    return finish(rep, info, len(items), nontriv, dist, samples, bad)
+    wi = [i for i in w_idx if w_offgrid_unity(items[i])]
+    if wi:
+        samples.append(items[wi[0]]["line"][:300])
+    return finish(rep, info, len(items) + len(outl_rel) + len(outl_chk), nontriv, dist, samples, list(bad) + list(bad_rel))
 
 
 def finish(rep, info, n, nontriv, dist, samples, bad=()):
@@ -323,13 +733,23 @@ def finish(rep, info, n, nontriv, dist, samples, bad=()):
             "modelled, not verified: a slice reference as (address, length) over a list of cells, usize as nat (no length near 2^64), "
             "mem::forget / Box::from_raw / drop as transitions of an ownership ledger; pointer identity and freeing are tied to the "
             "crate only by the observations (same/different data pointer, live heap bytes from a counting GlobalAlloc)",
-            "Base/Float.v (Flocq BinarySingleNaN) for f32 add/mul in the add_in_place cases, validated against rustc by lib/floatbase.py"],
+            "Base/Float.v (Flocq BinarySingleNaN) for f32 add/mul in the add_in_place cases, validated against rustc by lib/floatbase.py",
+            "W cases: the C03 model of Sample::{add_amp, mul_amp} / Frame::{add_amp, mul_amp, scale_amp, offset_amp, EQUILIBRIUM} (Sample/SampleOps.v, "
+            "Frame/FrameOps.v, generated conversion and companion tables) as the element-wise reference; validated by C03's own correspondence"],
         "theorems": th, "axioms_reported": info.get("axioms", []),
         "evaluations": n, "distinct_nontrivial": nontriv,
         "rule": "every N in 1..=32 x every L in 0..3N+1 for the view case and the boxed case (quick: one of the 5 sample formats per (N,L), "
                 "rotating so that every N meets every format and both divisible and non-divisible L; thorough: all 5), plus long slices; "
-                "every (op, frame format) x every length pair 0..6 x 0..6; non-trivial = N >= 2 and L not a multiple of N (the divisibility "
-                "test fails), or a store through a mutable view completed, or the two slices of a two-slice operation differ in length",
+                "every (op, frame format) x every length pair 0..6 x 0..6; the identity impls + free-function boxed forms for every format x L = 0..7, 33, 64; "
+                "W: every one of the 14 sample formats x {bare, [S;2], [S;3]} x {add_in_place_with_amp_per_channel with each special gain "
+                "(1, 0, -1, 0.5, -0, 2, 1-ulp, 1+ulp) on ALL channels, special gains mixed per channel, random gains; zip_map_in_place with an "
+                "add_amp(scale_amp(g)) closure for g in 1, 0, -1, 0.5, random; add_in_place (plain, range ends, zero source); write; equilibrium; "
+                "map_in_place with offset_amp(k); two length mismatches under a special gain}; in half of the gain cases the first frame pair is (equilibrium, hot source values: range ends, +-1, +-3, 2^mantissa + 1, ...) so that the scaled source is observed unmasked; the 32/64-bit formats and f32 also with 9 and 33 stereo frames under unity and mixed gains, samples from the boundary-structured set (MIN, MAX, equilibrium +-1, "
+                "+-2^k +-1, values off the float companion's grid, small, uniform), 1..2 frames (1..3 for the gain-free operations); each W case in dev vs the Checked model, in release vs the dev "
+                "observation when the dev build did not panic and vs the Wrapping model when it did, and in relchk vs dev (I24/I48 with a dev panic: vs release); the 32/64-bit formats get every gain pattern twice. "
+                "non-trivial = N >= 2 and L not a multiple of N (the divisibility "
+                "test fails), or a store through a mutable view completed, or the two slices of a two-slice operation differ in length, or a W case whose "
+                "operation changed the destination or panicked, or an I case of odd length (the N = 2 boxed conversion fails and frees)",
         "samples": samples, "input_distribution": dist, "disagreements": len(bad),
         "explanation": "theorems: for all N >= 1 and all lists, over an explicit memory/reference/ledger model; tie: the model's executable "
                        "definitions run by coqc on the same cases as the real crate, all observations compared exactly",
@@ -342,10 +762,11 @@ def finish(rep, info, n, nontriv, dist, samples, bad=()):
 def replay(path):
     j = json.load(open(path))
     it = build(j["case"])
-    ok, blog, binpath = F.harness_build("c10")
+    prof = "release" if it["kind"] == "W" and it.get("mode") == 1 else None
+    ok, blog, binpath = F.harness_build("c10", profile=prof) if prof else F.harness_build("c10")
     rc, out, _ = F.run_bin(binpath, [it["line"]])
-    _, model = F.coq_eval("c10", HEADER, f"run_case ({it['coq']})")
-    print("case:", it["line"])
+    _, model = F.coq_eval("c10", HEADER, f"run_xcase ({it['coq']})")
+    print("case:", it["line"], f"(build profile: {prof or 'dev'})")
     print("implementation:", out)
     print("model:", model)
     o, bad, errs = F.correspond(binpath, [it], HEADER, CHECK, "c10_replay")
